@@ -162,6 +162,7 @@ void TypedArgBase::assignValue( bool ignore_cardinality, const string& value,
             + "' does not support invertion");
 
    assign( value, inverted);
+   mWasUsed = true;
    activateConstraints();
 
 } // TypedArgBase::assignValue
